@@ -149,7 +149,12 @@ Definition c03_check (c : c03_case) : bool :=
         match h2_exchange blocks hdr_end evs, seen with
         | None, H2SeenCallErr => true     (* too many interim responses: the call fails *)
         | Some (d, e), H2SeenRead e' dlen pok =>
-            Bool.eqb (if hdr_end then true else h2_conn_usable evs) same
+            (* RST_STREAM(PROTOCOL_ERROR) marks the connection do-not-reuse only while the stream
+               is still known to the client; when the reader has already aborted the stream on its
+               own (more DATA than declared) the peer's reset may or may not still find it - a
+               race between the read loop and the caller's Read, not compared *)
+            ((h2err_eqb e H2TooMuch && existsb (fun ev => match ev with H2Rst 1 => true | _ => false end) evs)
+             || Bool.eqb (if hdr_end then true else h2_conn_usable evs) same)
             && match wire, final_block max_1xx blocks with
                | None, _ => true
                | Some (sid, w), Final b =>
